@@ -154,12 +154,27 @@ func buildHost(tape *sim.Tape, bad bool) *c11Host {
 				continue
 			}
 			enc, mt := encodeDataURI(tape, "image/svg+xml", pl)
-			doc.WriteString(fmt.Sprintf(".c%d { background : url(\"", i))
+			if i == 0 && tape.Draw(4) == 0 {
+				// a long stylesheet in front: what the minifier counts or caches while it reads
+				// hundreds of ordinary declarations must not change what happens to a later URL
+				for k, n := 0, 90+tape.Draw(160); k < n; k++ {
+					doc.WriteString(fmt.Sprintf(".v%d { color : var( --c%d ) ; margin : calc( 1px + %dpx ) }\n", k, k, k))
+				}
+			}
+			pre, post := "url(\"", "\")"
+			if tape.Draw(3) == 0 {
+				// nested in a function
+				pre, post = []string{"image-set( url(\"", "cross-fade( url(\""}[tape.Draw(2)], "\") 1x )"
+				if strings.HasPrefix(pre, "cross") {
+					post = "\") , red )"
+				}
+			}
+			doc.WriteString(fmt.Sprintf(".c%d { background : %s", i, pre))
 			s := c11Slot{MT: mt, Payload: pl, Ctx: "css url(data:)", Via: "datauri", Attr: true}
 			s.Start = doc.Len()
 			doc.WriteString(enc)
 			s.End = doc.Len()
-			doc.WriteString("\") ; }\n")
+			doc.WriteString(post + " ; }\n")
 			h.Slots = append(h.Slots, s)
 		}
 		h.Doc = doc.Bytes()
@@ -200,6 +215,13 @@ func buildHost(tape *sim.Tape, bad bool) *c11Host {
 			}
 			add(open, c11Slot{MT: smt, Payload: pl, Ctx: "<script>"}, "</script>\n")
 		case 1:
+			if tape.Draw(3) == 0 {
+				// other keyword types (no slash): whatever the user registered for the keyword is
+				// used, and nothing else; without a registration the content passes through
+				kw := []string{"importmap", "speculationrules"}[tape.Draw(2)]
+				add("<script type=\""+kw+"\">", c11Slot{MT: kw, Payload: []byte("{ \"imports\" : { \"a\" : \"./a.js\" , } }"), Ctx: "<script type=" + kw + ">"}, "</script>\n")
+				break
+			}
 			add("<script type=\"module\">", c11Slot{MT: "module", Payload: pick("module"), Ctx: "<script type=module>"}, "</script>\n")
 		case 2:
 			pl := pick("application/ld+json")
@@ -306,7 +328,7 @@ func c11Case(env *Env, tape *sim.Tape) *CaseOut {
 	bad := tape.Draw(5) == 0
 	h := buildHost(tape, bad)
 	types := []string{"application/javascript", "text/javascript", "module", "application/ld+json", "text/template", "text/css", "image/svg+xml", "application/mathml+xml", "text/html",
-		"text/xsl", "text/x-custom-style-language"}
+		"text/xsl", "text/x-custom-style-language", "importmap", "speculationrules"}
 	modes := map[string]int{}
 	swarm := tape.Draw(3) // 0: everything real; 1: mostly stubs; 2: mixed
 	for _, t := range types {
@@ -326,7 +348,7 @@ func c11Case(env *Env, tape *sim.Tape) *CaseOut {
 		}
 	}
 	modes["text/javascript"] = modes["application/javascript"]
-	for _, t := range []string{"text/template", "text/xsl", "text/x-custom-style-language"} {
+	for _, t := range []string{"text/template", "text/xsl", "text/x-custom-style-language", "importmap", "speculationrules"} {
 		if modes[t] == mReal {
 			modes[t] = mAbsent // there is no real minifier for it
 		}
